@@ -112,7 +112,7 @@ def run(ck):
     vecs = t.vecs.get("VEC", [])
     ck.notes["vectors"] = len(vecs)
     ck.cov["exhaustive"] = True
-    ck.cov["rule"] = ("every string of up to MaxTok tokens from the 18-token menu x the values of the variables it uses "
+    ck.cov["rule"] = ("every string of up to MaxTok tokens from the 20-token menu x the values of the variables it uses "
                       "(TLC BFS, one vector per state); each vector = 2 evaluations (shell.Expand, shell.Fields), both "
                       "compared with the spec and bash; distinct_nontrivial = strings with an expansion, quote, backslash, "
                       "brace or tilde token that are not an error in both modes")
